@@ -940,6 +940,109 @@ mod wire {
     }
 }
 
+// ------------------------------------------------------------------------------------------------
+// async: every delivery schedule must give the in-memory outcome (C12)
+mod asyncmode {
+    use super::*;
+    use rand::{rngs::StdRng, Rng, SeedableRng};
+    use vh::aio::Sched;
+
+    fn log_run(tr: &mut dyn Write, reads: &Value, eof: usize, a: &AsyncOut) {
+        writeln!(tr, "{}", json!({"op":"areset","reads":reads,"eof":eof})).unwrap();
+        for (cap, got) in &a.poll_log {
+            writeln!(tr, "{}", json!({"op":"poll","cap":cap,"got": match got { None => -1i64, Some(n) => *n as i64 }})).unwrap();
+        }
+        writeln!(tr, "{}", json!({"op":"done","res": if a.err.is_none() {"ok"} else {"err"},"taken":a.taken})).unwrap();
+    }
+
+    pub fn run(path: &str, outp: &str, tracep: &str, seed: u64, thorough: bool) {
+        let f = std::fs::File::open(path).unwrap_or_else(|e| panic!("open {path}: {e}"));
+        let mut r = Report { out: Box::new(std::io::BufWriter::new(std::fs::File::create(outp).unwrap())), evals: 0, mism: 0 };
+        let mut tr = std::io::BufWriter::new(std::fs::File::create(tracep).unwrap());
+        let mut rng = StdRng::seed_from_u64(seed);
+        let (mut ncases, mut nsched, mut nexh, mut neof, mut nruns_logged) = (0u64, 0u64, 0u64, 0u64, 0u64);
+        let exh_limit = if thorough { 13 } else { 10 };
+        let nrandom = if thorough { 40 } else { 4 };
+        for line in BufReader::new(f).lines() {
+            let j: Value = vh::parse_json(&line.unwrap());
+            let id = j["id"].as_u64().unwrap();
+            let t = j["t"].as_u64().unwrap() as u8;
+            let v = Tree::from_json(&j["v"]);
+            ncases += 1;
+            for p in [Proto::Bin, Proto::BinLe, Proto::Compact] {
+                let pn = p.name();
+                let (enc, reads) = match p {
+                    Proto::Bin => (json_bytes(&j["bin"]), &j["rbin"]),
+                    Proto::BinLe => (json_bytes(&j["binle"]), &j["rbin"]),
+                    _ => (json_bytes(&j["cs"]), &j["rc"]),
+                };
+                let want = v.erase(p == Proto::Compact);
+                let mut input = enc.clone();
+                input.extend_from_slice(&TRAILER);
+                let sync = decode_seq(p, &input, &[t], false);
+                if sync.err.is_some() || sync.values[0] != want {
+                    r.bad(id, pn, "-", "async-sync-baseline", json!({"err": sync.err}));
+                    continue;
+                }
+                // --- named and random schedules
+                let mut scheds: Vec<(String, Vec<Sched>, usize, Option<Vec<usize>>)> = vec![
+                    ("whole".into(), vec![], 1 << 20, None),
+                    ("bytewise".into(), vec![], 1, None),
+                    ("bytewise+pending".into(), (0..input.len() * 2 + 2).map(|i| if i % 2 == 0 { Sched::Pending } else { Sched::Deliver(1) }).collect(), 1, None),
+                ];
+                for k in 0..nrandom {
+                    let s: Vec<Sched> = (0..input.len() * 2 + 4)
+                        .map(|_| if rng.gen_ratio(1, 4) { Sched::Pending } else { Sched::Deliver(rng.gen_range(1..9)) })
+                        .collect();
+                    scheds.push((format!("random{k}"), s, 3, None));
+                }
+                // --- every way of cutting a short message into chunks
+                if enc.len() <= exh_limit && enc.len() >= 2 {
+                    let n = enc.len();
+                    for mask in 0u32..(1u32 << (n - 1)) {
+                        let mut b: Vec<usize> = (1..n).filter(|i| mask & (1 << (i - 1)) != 0).collect();
+                        b.push(n);
+                        b.push(input.len());
+                        scheds.push((format!("cut{mask:x}"), vec![], 1 << 20, Some(b)));
+                        nexh += 1;
+                    }
+                }
+                for (si, (name, sched, chunk, bounds)) in scheds.into_iter().enumerate() {
+                    nsched += 1;
+                    let a = decode_async_b(p, &input, &[t], sched, chunk, None, false, bounds);
+                    if let Some(err) = &a.err {
+                        r.bad(id, pn, &name, "async-err", json!(err));
+                    } else {
+                        r.cmp(a.values[0] == sync.values[0], id, pn, &name, "async-value", || json!({"got": a.values[0].to_json(), "sync": sync.values[0].to_json()}));
+                        r.cmp(a.taken == enc.len(), id, pn, &name, "async-overread", || json!({"taken": a.taken, "message": enc.len(), "max_cap": a.max_cap}));
+                    }
+                    if si == 2 || si == 3 || (si > 6 && si % 97 == 0) {
+                        log_run(&mut tr, reads, input.len(), &a);
+                        nruns_logged += 1;
+                    }
+                }
+                // --- the stream ends early: an error, like decoding the same prefix from memory
+                let n = enc.len();
+                let ks: Vec<usize> = if n <= 24 || thorough { (0..n).collect() } else { (0..12).map(|_| rng.gen_range(0..n)).collect() };
+                for (ki, k) in ks.into_iter().enumerate() {
+                    neof += 1;
+                    let sp = decode_seq(p, &enc[..k], &[t], false);
+                    let a = decode_async(p, &input, &[t], vec![], 2, Some(k), false);
+                    let bad = a.err.as_deref().map_or(true, |e| e.starts_with("panic") || e.starts_with("hang"));
+                    r.cmp(sp.err.is_some() && !bad, id, pn, "eof", "async-eof", || json!({"eof_at": k, "len": n, "async": a.err, "sync_prefix": sp.err}));
+                    if ki % 7 == 0 {
+                        log_run(&mut tr, reads, k, &a);
+                        nruns_logged += 1;
+                    }
+                }
+            }
+        }
+        writeln!(r.out, "{}", json!({"kind":"summary","cases":ncases,"schedules":nsched,"exhaustive_cuts":nexh,"eof_runs":neof,"runs_logged":nruns_logged,"evaluations":r.evals,"mismatches":r.mism})).unwrap();
+        r.out.flush().unwrap();
+        tr.flush().unwrap();
+    }
+}
+
 fn main() {
     if std::env::var("VERIF_LOUD").is_err() { vh::quiet_panics(); }
     let a: Vec<String> = std::env::args().collect();
@@ -947,6 +1050,7 @@ fn main() {
         Some("vectors") => run_vectors(&a[2], &a[3]),
         Some("walks") => walks::run(&a[2], &a[3]),
         Some("wire") => wire::run(&a[2], &a[3]),
+        Some("async") => asyncmode::run(&a[2], &a[3], &a[4], a[5].parse().unwrap(), a.get(6).map_or(false, |x| x == "thorough")),
         Some("record") => run_record(a[2].parse().unwrap(), a[3].parse().unwrap(), &a[4]),
         _ => {
             eprintln!("usage: drive vectors <in.ndjson> <out.ndjson>");
